@@ -61,3 +61,17 @@ pub fn genstats(args: &[String]) -> i32 {
     }
     0
 }
+
+/// vharness ctx <file.asn>: the contextualized syntax error of a file
+pub fn ctx(args: &[String]) -> i32 {
+    use rasn_compiler::prelude::*;
+    let text = std::fs::read_to_string(&args[0]).unwrap();
+    match Compiler::<RasnBackend, _>::new().add_asn_literal(text.clone()).compile_to_string() {
+        Ok(_) => println!("ok"),
+        Err(e) => {
+            println!("{e}");
+            println!("{}", e.contextualize(&text));
+        }
+    }
+    0
+}
